@@ -16,56 +16,84 @@ from structsym import *  # noqa
 import structsym  # noqa
 
 
+DEFAULT_ALLOWED = frozenset("ABCDEFGHIJKLMNOPQRSTUVWXYZ0123456789/")
+
+
+class SymChar(StrZ):
+    """one symbolic character of a piece (its class is known)"""
+    __slots__ = ("allowed",)
+
+    def __init__(self, s, allowed):
+        super().__init__(s)
+        self.allowed = allowed
+
+
 class PieceStr(StrZ):
     """A string given as a sequence of pieces of known length: literal text, or a symbolic piece (z3 string term of fixed
-    length whose characters are letters, digits or '/'). Searching for text that contains '{', '}' or ':' and slicing at
-    constant offsets are decided on the structure, so that the z3 queries only see SubString at constant offsets."""
+    length whose characters come from a known class, by default letters, digits and '/'). Searching for text and slicing at
+    constant offsets are decided on the structure whenever the needle contains a character the symbolic pieces cannot hold,
+    so that the z3 queries only see SubString at constant offsets."""
     __slots__ = ("pieces",)
 
     def __init__(self, pieces):
-        self.pieces = [p for p in pieces if p[1] > 0]      # (python str | z3 term, length)
-        parts = [z3.StringVal(p) if isinstance(p, str) else p for p, _ in self.pieces]
+        self.pieces = [(p[0], p[1], (p[2] if len(p) > 2 else (None if isinstance(p[0], str) else DEFAULT_ALLOWED))) for p in pieces if p[1] > 0]
+        parts = [z3.StringVal(p) if isinstance(p, str) else p for p, _, _ in self.pieces]
         super().__init__(z3.StringVal("") if not parts else parts[0] if len(parts) == 1 else z3.Concat(*parts))
 
     def total(self):
-        return sum(n for _, n in self.pieces)
+        return sum(n for _, n, _ in self.pieces)
 
-    def char_at(self, i):
-        """python char if position i is literal, else None (a symbolic letter / digit / slash)"""
-        for p, n in self.pieces:
+    def at(self, i):
+        """(python char, None) if position i is literal, else (None, allowed set)"""
+        for p, n, al in self.pieces:
             if i < n:
-                return p[i] if isinstance(p, str) else None
+                return (p[i], None) if isinstance(p, str) else (None, al)
+            i -= n
+        raise IndexError
+
+    def sym_char(self, i):
+        for p, n, al in self.pieces:
+            if i < n:
+                return p[i] if isinstance(p, str) else SymChar(z3.SubString(p, i, 1), al)
             i -= n
         raise IndexError
 
     def find(self, needle, start=0):
-        """first index >= start at which `needle` occurs, or -1; needle characters outside [A-Z0-9/] never match a symbolic one"""
+        """first index >= start at which `needle` occurs, or -1. Decided on the structure; raises Unsupported when an
+        occurrence would depend on the symbolic characters."""
         tot = self.total()
         for pos in range(start, tot - len(needle) + 1):
-            ok = True
+            ok, maybe = True, False
             for k, ch in enumerate(needle):
-                c = self.char_at(pos + k)
+                c, al = self.at(pos + k)
                 if c is None:
-                    if ch.isalnum() or ch == "/":
-                        raise Unsupported("searching for %r would have to look inside a symbolic piece" % needle)
+                    if ch in al:
+                        maybe = True
+                        continue
                     ok = False
                     break
                 if c != ch:
                     ok = False
                     break
+            if ok and maybe:
+                raise Unsupported("searching for %r would have to look inside a symbolic piece" % needle)
             if ok:
                 return pos
         return -1
 
     def slice(self, a, b):
         out, off = [], 0
-        for p, n in self.pieces:
+        for p, n, al in self.pieces:
             lo, hi = max(a, off), min(b, off + n)
             if lo < hi:
-                out.append((p[lo - off:hi - off], hi - lo) if isinstance(p, str) else
-                           ((p if (lo == off and hi == off + n) else z3.SubString(p, lo - off, hi - lo)), hi - lo))
+                out.append((p[lo - off:hi - off], hi - lo, None) if isinstance(p, str) else
+                           ((p if (lo == off and hi == off + n) else z3.SubString(p, lo - off, hi - lo)), hi - lo, al))
             off += n
         return PieceStr(out)
+
+    def may_be_space(self, i):
+        c, al = self.at(i)
+        return c.isspace() if c is not None else any(x.isspace() for x in al)
 
 
 class HdrMachine(StructMachine):
@@ -86,9 +114,21 @@ class HdrMachine(StructMachine):
                 return Opt(i >= 0, i if i >= 0 else 0)
             if meth == "starts_with" and args and isinstance(args[0], str) and not any(c.isalnum() or c == "/" for c in args[0]):
                 return recv.find(args[0]) == 0
-            if meth in ("to_string", "to_owned", "clone", "as_str", "trim") and all(
-                    not isinstance(p, str) or p == p.strip() for p, _ in (recv.pieces[:1] + recv.pieces[-1:])):
+            if meth in ("to_string", "to_owned", "clone", "as_str"):
                 return recv
+            if meth == "trim" and (recv.total() == 0 or not (recv.may_be_space(0) or recv.may_be_space(recv.total() - 1))):
+                return recv
+            if meth == "trim":
+                # s = lead ++ t ++ trail with lead, trail blank and t neither starting nor ending with a blank (unique)
+                n = len(self.constraints)
+                lead, t, trail = (z3.String(self.fresh_name("trim_" + k)) for k in ("lead", "mid", "trail"))
+                ws = z3.Union(z3.Re(" "), z3.Re("\t"), z3.Re("\n"), z3.Re("\r"))
+                anyc = z3.Full(z3.ReSort(z3.StringSort()))
+                self.constraints += [recv.s == z3.Concat(lead, t, trail), z3.InRe(lead, z3.Star(ws)), z3.InRe(trail, z3.Star(ws)),
+                                     z3.Not(z3.InRe(t, z3.Concat(ws, anyc))), z3.Not(z3.InRe(t, z3.Concat(anyc, ws)))]
+                return StrZ(t)
+            if meth == "find" and args and isinstance(args[0], str) is False and getattr(args[0], "allowed", None) is None and isinstance(args[0], StrZ):
+                raise Unsupported("find with a symbolic needle")
         return super().builtin_method(recv, meth, args, e, fr, guard)
 
     def ev_index(self, e, fr, guard):
